@@ -315,13 +315,20 @@ func instrYield(p *packages.Package, f *ast.File, fe *fileEdits) {
 		}
 		fn := funcName(p, fd)
 		ast.Inspect(fd.Body, func(n ast.Node) bool {
-			bs, ok := n.(*ast.BlockStmt)
-			if !ok {
+			var list []ast.Stmt
+			switch x := n.(type) {
+			case *ast.BlockStmt:
+				list = x.List
+			case *ast.CaseClause:
+				list = x.Body
+			case *ast.CommClause:
+				list = x.Body
+			default:
 				return true
 			}
-			for _, st := range bs.List {
+			for _, st := range list {
 				switch st.(type) {
-				case *ast.LabeledStmt, *ast.EmptyStmt:
+				case *ast.LabeledStmt, *ast.EmptyStmt, *ast.CaseClause, *ast.CommClause:
 					continue
 				}
 				pos := p.Fset.Position(st.Pos())
